@@ -8,8 +8,10 @@ MEM_CAPS = [0, 1, 1, 2, 3, 1000]
 
 
 class BufGen(ProgGen):
-    def __init__(self, rng, runner, fam, p_ctx=0.2, p_cap=0.35, joint=False, **kw):
+    def __init__(self, rng, runner, fam, p_ctx=0.2, p_cap=0.35, joint=False, p_fail=0.0, **kw):
         super().__init__(rng, runner, fam, **kw)
+        self.p_fail = p_fail        # probability of switching write failures (OSError) on/off
+        self.failing = []
         self.p_ctx = p_ctx
         self.p_cap = p_cap
         self.joint = joint          # object contexts are entered / exited for all objects of a file together
@@ -85,6 +87,13 @@ class BufGen(ProgGen):
     def step(self):
         if self.pending:
             return self.pending.pop(0)
+        if self.p_fail and self.rng.random() < self.p_fail:
+            if self.failing and self.rng.random() < 0.6:
+                self.failing = []
+            else:
+                rs = [r for r, _ in self.resources]
+                self.failing = sorted(self.rng.sample(rs, self.rng.randint(1, len(rs))))
+            return ("fail", list(self.failing))
         if len(self.stack) < 4 and self.rng.random() < self.p_ctx or (self.stack and self.rng.random() < 0.04):
             return self.ctx_op()
         return super().step()
@@ -92,6 +101,9 @@ class BufGen(ProgGen):
     def closing(self):
         ops = list(self.pending)
         self.pending = []
+        if self.failing and self.rng.random() < 0.5:
+            self.failing = []
+            ops.append(("fail", []))
         while self.stack:
             top = self.stack.pop()
             if top[0] == "c":
